@@ -51,23 +51,30 @@ def instantiation_normalisers_agree(ctx, clause):
     g, p = ctx.flow, ctx.p
     shaper = p.find_class("Shaper")
     src = g.field_nodes(shaper, "_instantiation_property")
-    sites = {
-        "ShExC": ("shexer.io.shex.formater.statement_serializers.base_statement_serializer:BaseStatementSerializer.str_of_target_element",),
-        "SHACL": ("shexer.io.shacl.formater.shacl_serializer:ShaclSerializer._is_instantiation_property",),
-    }
+    sites = {"ShExC": "BaseStatementSerializer", "SHACL": "ShaclSerializer"}
     found = {}
-    for label, (q,) in sites.items():
-        f = p.func(q)
-        cmps = [x for x in walk_own(f.node) if isinstance(x, ast.Compare) and isinstance(x.ops[0], (ast.Eq, ast.NotEq))]
-        ts = None
-        for c in cmps:
-            for operand in [c.left] + list(c.comparators):
-                t = _slice_transformers(ctx, src, g.enode(operand))
-                if t is not None:
-                    ts = t if ts is None else ts | t
+    missing = []
+    for label, cname in sites.items():
+        c = p.find_class(cname)
+        ts, where = None, None
+        for f in c.methods.values():
+            for x in walk_own(f.node):
+                if not (isinstance(x, ast.Compare) and isinstance(x.ops[0], (ast.Eq, ast.NotEq))):
+                    continue
+                for operand in [x.left] + list(x.comparators):
+                    t = _slice_transformers(ctx, src, g.enode(operand))
+                    if t is not None:
+                        ts = t if ts is None else ts | t
+                        where = where or f
         if ts is None:
-            raise AnalysisError("no comparison against the instantiation property found in " + q)
-        found[label] = (f, ts)
+            missing.append((label, c))
+        else:
+            found[label] = (where, ts)
+    if missing:
+        label, c = missing[0]
+        return [Ob(clause, "R-FLOW", "R-FLOW|instantiation-property-normalisers|ShExC-vs-SHACL", c.module.relpath + ":%d" % c.node.lineno, False,
+                   "the %s serialiser (%s) never compares a statement's property with the configured instantiation property: which "
+                   "constraint is the typing constraint (value set / sh:in) is decided by other means than in the other output" % (label, c.name))]
     a, b = found["ShExC"][1], found["SHACL"][1]
     ok = a == b
     f = found["SHACL"][0]
